@@ -1286,8 +1286,78 @@ fn classify(classes: &[&'static str], clause: &str) -> String {
 
 // ------------------------------------------------------------------------------------------
 
+/// `r <kind> <origin> <zone> <qname>`: requests the lookup algorithm must never see — the gate at
+/// the head of `Catalog::handle_request` (implementation vs oracle only)
+fn exec_request_gate(t: &[&str], line: &str, rec: &mut Recorder) {
+    let (Some(kind), Some(origin), Some(zone), Some(qname)) = (t.get(1), t.get(2).and_then(|x| name_parse(x)), t.get(3).and_then(|x| zone_parse(x)), t.get(4).and_then(|x| name_parse_case(x))) else {
+        rec.stat("skipped.unparsable-case");
+        return;
+    };
+    let c = Case { mode: 'u', origin, zone: canon_zone(zone), qname, qtype: T_A, dnssec_ok: false, store: None };
+    let Some((cat, _)) = build_catalog(&c) else {
+        rec.stat("skipped.zone-not-stored-as-written");
+        return;
+    };
+    let mut m = Message::query();
+    m.metadata.id = 0x4321;
+    let mut qn = Name::from_labels(c.qname.iter().map(|l| l.as_bytes())).expect("qname");
+    qn.set_fqdn(true);
+    m.add_query(Query::new(qn, RecordType::A));
+    let want = match *kind {
+        "ednsv1" => {
+            // RFC 6891 §6.1.3: unsupported EDNS version -> BADVERS (16), no answer
+            let mut e = Edns::new();
+            e.set_version(1);
+            e.set_max_payload(1232);
+            m.set_edns(e);
+            "RC16"
+        }
+        "opcode" => {
+            m.metadata.op_code = hickory_proto::op::OpCode::Status;
+            "RC4"
+        }
+        "qr" => {
+            m.metadata.message_type = hickory_proto::op::MessageType::Response;
+            "RC1"
+        }
+        _ => {
+            rec.stat("skipped.unparsable-case");
+            return;
+        }
+    };
+    let bytes = m.to_vec().expect("encode");
+    let r = catch(|| {
+        let src: SocketAddr = ([127, 0, 0, 1], 5353).into();
+        let req = Request::from_bytes(bytes, src, Protocol::Tcp).map_err(|e| format!("request: {e}"))?;
+        let cap = Capture::default();
+        RT.with(|rt| rt.block_on(cat.handle_request::<_, TokioTime>(&req, cap.clone())));
+        let out = cap.buf.lock().unwrap().take().ok_or("no response sent".to_string())?;
+        let mut d = BinDecoder::new(&out);
+        Message::read(&mut d).map_err(|e| format!("response does not decode: {e}"))
+    });
+    rec.impl_only += 1;
+    let idx = rec.case(line.to_string(), "~".into());
+    rec.stat(&format!("op.r-{kind}"));
+    match r {
+        Ok(Ok(m)) => {
+            let resp = resp_of(&m);
+            if resp.rcode != want || !resp.an.is_empty() || !resp.ns.is_empty() {
+                rec.fail(idx, format!("request-gate: {kind} must be answered {want} without records, got {}", resp_txt(&resp)), "");
+            } else {
+                rec.stat("oracle.ok");
+            }
+        }
+        Ok(Err(e)) => rec.fail(idx, format!("request-gate: no usable response: {e}"), ""),
+        Err(p) => rec.fail(idx, format!("panic: {p}"), ""),
+    }
+}
+
 pub fn exec(line: &str, rec: &mut Recorder) {
     let t: Vec<&str> = line.split_whitespace().collect();
+    if t.first() == Some(&"r") {
+        exec_request_gate(&t, line, rec);
+        return;
+    }
     if t.first() == Some(&"dev") && t.get(1) == Some(&"n") {
         rec.stat("skipped.dev-n-line-is-emitted-with-its-q-line");
         return;
@@ -1828,7 +1898,7 @@ fn exhaustive(rec: &mut Recorder) {
 }
 
 pub fn run(o: &Opts, rec: &mut Recorder) {
-    rec.rule = "zones over a small name universe (apex SOA+NS, hosts, ENTs, wildcards at depth 1-3, CNAME chains / loops / out-of-zone targets, delegations with and without glue, DS at cuts, occluded data below cuts, nested cuts, a few ill-formed zones) x qnames in and around the zone x {A,AAAA,MX,NS,CNAME,SOA,DS,TXT,ANY}; every q case has a dev twin comparing the harness' class predicates and the theorem statement with the Lean side; a case is non-trivial unless the query is outside the zone or a plain NXDOMAIN in an apex-only zone; distinct by case line".into();
+    rec.rule = "zones over a small name universe (apex SOA+NS, hosts, ENTs, wildcards at depth 1-3, CNAME chains / loops / out-of-zone targets, delegations with and without glue, DS at cuts, occluded data below cuts, nested cuts, SRV, ANAME (model only), a few ill-formed zones; unsigned / NSEC / signed without denial chain / NSEC3 / NSEC3 opt-out; built by upsert_mut, async upsert or InMemoryZoneHandler::new) x qnames in and around the zone x {A,AAAA,MX,NS,CNAME,SOA,DS,TXT,ANY} (+ SRV, ANAME, AXFR where it applies) + request-gate cases; every q case has a dev twin comparing the harness' class predicates and the theorem statement with the Lean side; a case is non-trivial unless the query is outside the zone or a plain NXDOMAIN in an apex-only zone; distinct by case line".into();
     for l in o.pre_lines.clone() {
         exec(&l, rec);
         if l.starts_with("q u ") && !l.contains(" AXFR ") {
